@@ -356,7 +356,7 @@ SWEEP_PARTS = 8
 def plan(tier):
     sweep = [{"kind": "sweep", "part": i} for i in range(SWEEP_PARTS)]
     if tier == "quick":
-        return sweep + [{"n": 1500, "depth": 3}] * 16
+        return sweep + [{"n": 1200, "depth": 3}] * 16
     return sweep + [{"n": 40000, "depth": 3}] * 40 + [{"n": 8000, "depth": 5}] * 8
 
 
